@@ -84,12 +84,53 @@ def rule_micro(ctx, py):
 def rule_print(ctx, py):
     R = "C18.PRINT"
     f = py.fn("units.Units.__str__")
-    src = pyfe.src(f).replace(" ", "")
-    ctx.check("forkinself.sys.keys()" in src and "ifself.dim[k]!=0" in src, R, f, f._qual,
-              "one factor per base kind with a non-zero exponent", "", "zero-exponent kinds are printed or kinds skipped")
-    ctx.check("s.append(self.sys[k]+str(self.dim[k]))" in src and "ifself.dim[k]!=1" in src and "s.append(self.sys[k])" in src,
-              R, f, f._qual, "factor = base label + str(int exponent), exponent 1 omitted", "", "factor format changed")
-    ctx.check("out+='.'" in src, R, f, f._qual, "factors joined by '.'", "a separator the parser accepts", "joined by "
+    from .. import pya, ir, pysym
+    loops = [n for n in ast.walk(f) if isinstance(n, ast.For) and any(
+        isinstance(c, ast.Call) and isinstance(c.func, ast.Attribute) and c.func.attr == "append" for c in ast.walk(n))]
+    ctx.need(len(loops) == 1 and isinstance(loops[0].target, ast.Name), R, "Units.__str__: the factor loop is not found")
+    k = loops[0].target.id
+    it = pyfe.src(loops[0].iter).replace('"', "'")
+    ctx.check(it in ("self.sys.keys()", "self.dim.keys()", "self.sys", "self.dim", "['space', 'time', 'quantity']",
+                     "('space', 'time', 'quantity')", "list(self.sys)", "list(self.sys.keys())"), R, loops[0], f._qual,
+              "for %s in %s" % (k, it), "one pass per base kind", "the printer does not visit the three base kinds")
+    apps = []
+
+    class C(pya.PyFacts):
+        inline_fn = f
+
+        def atom(self, node, cfg):
+            if self.record:
+                for c in ast.walk(node):
+                    if isinstance(c, ast.Call) and isinstance(c.func, ast.Attribute) and c.func.attr == "append" and c.args:
+                        apps.append((c, pysym.isrc(c.args[0], f).replace(" ", ""), cfg))
+            return super().atom(node, cfg)
+    ir.Engine(C(), "must").run(ir.py_to_ir(f.body))
+    dimk = "self.dim[%s]" % k
+    nz = lambda cfg: ("%s == 0" % dimk, False) in cfg or ("0 == %s" % dimk, False) in cfg
+    one = lambda cfg, pol: ("%s == 1" % dimk, pol) in cfg or ("1 == %s" % dimk, pol) in cfg
+    forms = {"withexp": 0, "bare": 0}
+    for c, txt, cfg in apps:
+        if txt in ("self.sys[%s]+str(%s)" % (k, dimk), "self.sys[%s]+repr(%s)" % (k, dimk)):
+            okk = nz(cfg) and one(cfg, False)
+            forms["withexp"] += okk
+            ctx.check(okk, R, c, f._qual, "append(%s)" % txt, "label + exponent for exponents other than 0 and 1",
+                      "the factor `label + exponent` is not limited to exponents other than 0 and 1")
+        elif txt == "self.sys[%s]" % k:
+            okk = one(cfg, True) or (nz(cfg) and one(cfg, True))
+            forms["bare"] += okk
+            ctx.check(okk, R, c, f._qual, "append(%s)" % txt, "bare label exactly for exponent 1",
+                      "the bare label is printed for an exponent other than 1")
+        else:
+            ctx.violation(R, c, f._qual, "append(%s)" % txt, "a factor is neither `label + str(exponent)` nor the bare label: the "
+                          "parser does not read it back as the same unit")
+    ctx.check(forms["withexp"] >= 1 and forms["bare"] >= 1, R, f, f._qual, "one factor per base kind with a non-zero exponent",
+              "label + exponent, exponent 1 omitted, exponent 0 skipped", "zero-exponent kinds are printed or kinds skipped")
+    rets = [r for r in ast.walk(f) if isinstance(r, ast.Return) and r.value is not None]
+    src = pyfe.src(f).replace(" ", "").replace('"', "'")
+    joined = any(isinstance(r.value, ast.Call) and isinstance(r.value.func, ast.Attribute) and r.value.func.attr == "join" and
+                 isinstance(r.value.func.value, ast.Constant) and r.value.func.value.value == "." for r in rets) or \
+        ("out+='.'" in src and "out+=s[i]" in src)
+    ctx.check(joined, R, rets[0] if rets else f, f._qual, "factors joined by '.'", "a separator the parser accepts", "joined by "
               "something the parser does not split on")
     rule_value_str(ctx, py, R)
     h = py.fn("units.parse_unitvalue")
